@@ -1733,9 +1733,24 @@ def r_tree_count(ctx, rule='R-NTREES'):
                         c0 = strip(e[1])
                         if c0[0] == 'binop' and c0[1] in ('Gt', 'Lt', 'Ge', 'Le'):
                             sides = (c0[2], c0[3])
-                            if any(is_roots(t) and any(y[0] == 'call' and y[1].endswith('::len') for y in walk(t)) for t in sides) and any(is_target(t) and not is_roots(t) for t in sides):
+                            def target_side(t):
+                                # `target`, or `min(roots.len(), target)` (the number of trees kept, never more than there are)
+                                t0 = strip(t)
+                                while t0[0] == 'cast':
+                                    t0 = strip(t0[2])
+                                if is_target(t0) and not is_roots(t0):
+                                    return True
+                                if t0[0] == 'call' and t0[1].endswith(('::min', 'cmp::min')) and len(t0[2]) == 2:
+                                    a, b = t0[2]
+                                    return (is_target(a) and not is_roots(a) and is_roots(b)) or (is_target(b) and not is_roots(b) and is_roots(a))
+                                return False
+
+                            def roots_len_side(t):
+                                t0 = strip(t)
+                                return t0[0] == 'call' and t0[1].endswith('::len') and is_roots(t0) and not is_target(t0)
+                            if (roots_len_side(sides[0]) and target_side(sides[1])) or (roots_len_side(sides[1]) and target_side(sides[0])):
                                 # `roots.len() > target` keeps looping (or its mirrored spelling)
-                                keep = (c0[1] == 'Gt' and is_roots(sides[0])) or (c0[1] == 'Lt' and is_roots(sides[1]))
+                                keep = (c0[1] == 'Gt' and roots_len_side(sides[0])) or (c0[1] == 'Lt' and roots_len_side(sides[1]))
                                 if keep and e[2] and rm and rm[0].bb in g.reachable(x0):
                                     bound_b = True
             okk = (bound_a or bound_b) and bool(rm) and bool(dt)
